@@ -79,7 +79,11 @@ def random_graph_model(rng, quotes=False, max_classes=6, max_methods=25, dense=F
             col = rng.randint(2, 90)
             c[5] = [str(line), str(col), str(line), str(col + max(1, len(c[3])))]
         funcs_by_class[ci].append(mk_func(nm, calls))
-    return [mk_ds(classes[i][1], classes[i][0], funcs_by_class[i]) for i in range(ncls)]
+    # the kind of the type is part of the model: interfaces with default / static methods have bodies and call sites like
+    # any class, and so do the anonymous classes the front end records ("CreatorClass")
+    kinds = [rng.choice(["Class", "Class", "Class", "Interface", "Interface", "CreatorClass"]) if rng.random() < 0.35 else "Class"
+             for _ in range(ncls)]
+    return [mk_ds(classes[i][1], classes[i][0], funcs_by_class[i], typ=kinds[i]) for i in range(ncls)]
 
 def pick_target(rng, model):
     ms = methods_of(model)
